@@ -298,3 +298,48 @@ Proof.
     destruct (str_eqb s (L "1") || str_eqb s (L "true")); [discriminate|].
     destruct (str_eqb s (L "0") || str_eqb s (L "false")); [discriminate|]. congruence.
 Qed.
+
+Lemma int_bounds_all z :
+  (in_range_Long z = true <-> -9223372036854775808 <= z <= 9223372036854775807) /\
+  (in_range_Int z = true <-> -2147483648 <= z <= 2147483647) /\
+  (in_range_Short z = true <-> -32768 <= z <= 32767) /\
+  (in_range_Byte z = true <-> -128 <= z <= 127) /\
+  (in_range_NonPositiveInteger z = true <-> z <= 0) /\
+  (in_range_NegativeInteger z = true <-> z <= -1) /\
+  (in_range_NonNegativeInteger z = true <-> 0 <= z) /\
+  (in_range_PositiveInteger z = true <-> 1 <= z) /\
+  (in_range_UnsignedLong z = true <-> 0 <= z <= 18446744073709551615) /\
+  (in_range_UnsignedInt z = true <-> 0 <= z <= 4294967295) /\
+  (in_range_UnsignedShort z = true <-> 0 <= z <= 65535) /\
+  (in_range_UnsignedByte z = true <-> 0 <= z <= 255).
+Proof.
+  assert (B : forall T, sdk_range T z = true <->
+     match T with
+     | TInteger => True
+     | TLong => -9223372036854775808 <= z <= 9223372036854775807
+     | TInt => -2147483648 <= z <= 2147483647
+     | TShort => -32768 <= z <= 32767
+     | TByte => -128 <= z <= 127
+     | TNonPositiveInteger => z <= 0
+     | TNegativeInteger => z <= -1
+     | TNonNegativeInteger => 0 <= z
+     | TPositiveInteger => 1 <= z
+     | TUnsignedLong => 0 <= z <= 18446744073709551615
+     | TUnsignedInt => 0 <= z <= 4294967295
+     | TUnsignedShort => 0 <= z <= 65535
+     | TUnsignedByte => 0 <= z <= 255
+     end) by (intros T; rewrite sdk_range_space; apply int_space_bounds).
+  repeat match goal with |- _ /\ _ => split end.
+  - exact (B TLong).
+  - exact (B TInt).
+  - exact (B TShort).
+  - exact (B TByte).
+  - exact (B TNonPositiveInteger).
+  - exact (B TNegativeInteger).
+  - exact (B TNonNegativeInteger).
+  - exact (B TPositiveInteger).
+  - exact (B TUnsignedLong).
+  - exact (B TUnsignedInt).
+  - exact (B TUnsignedShort).
+  - exact (B TUnsignedByte).
+Qed.
